@@ -4,12 +4,14 @@
    Events (every call is one whole critical section; calls of a history run in the order of its events):
      [1; v] Push(v)   [2; v] PushFront(v)   [3] Pop()   [4] Peek()   [5] PeekTail()   [6] IsEmpty()   [7] Reset()
      [8]     drain: Pop until it reports "not exists" (at most a bound)
-     9 :: vs free-running stream (config f = 1 only): vs pushed (Push or PushFront) and popped by concurrent
-             goroutines, then drained
+     [9; v]  free-running stream (config f = 1 only): v is one of the values pushed by the stream
+     [10]    the stream ran: concurrent goroutines pushed those values (Push or PushFront) and popped; then the
+             list was drained
    Observations:
      after 1..7:  [val; flag]   Pop/Peek/PeekTail: value and exists; IsEmpty: [0; empty]; others [0; 0]
      after 8:     z :: ds       ds = the values popped, z = 1 iff the last Pop reported "not exists"
-     after 9:     all values returned by successful Pops of the stream and the final drain, sorted *)
+     after 9:     nothing
+     after 10:    all values returned by successful Pops of the stream and the final drain, sorted *)
 From Util Require Import Common.Base Common.ListLemmas Lifo.LLModel.
 From Util Require Import Lifo.Spec.   (* isort, remove1, msub, mdiff *)
 
@@ -27,15 +29,20 @@ Definition lhinit (cfg : list N) : lhst :=
   | [] => {| lms := llinit; lfree := false |}
   end.
 
-Definition decode (e : list N) : option dop :=
+(* decoded harness events *)
+Inductive lhev := HOp (o : dop) | HDrain | HFreeVal (v : N) | HFreeRun.
+Definition decode (e : list N) : option lhev :=
   match e with
-  | [1; v] => Some (DPush v)
-  | [2; v] => Some (DPushFront v)
-  | [3] => Some DPop
-  | [4] => Some DPeek
-  | [5] => Some DPeekTail
-  | [6] => Some DIsEmpty
-  | [7] => Some DReset
+  | [1; v] => Some (HOp (DPush v))
+  | [2; v] => Some (HOp (DPushFront v))
+  | [3] => Some (HOp DPop)
+  | [4] => Some (HOp DPeek)
+  | [5] => Some (HOp DPeekTail)
+  | [6] => Some (HOp DIsEmpty)
+  | [7] => Some (HOp DReset)
+  | [8] => Some HDrain
+  | [9; v] => Some (HFreeVal v)
+  | [10] => Some HFreeRun
   | _ => None
   end%N.
 
@@ -51,23 +58,22 @@ Fixpoint ldrain (fuel : nat) (s : llst) : llst * list N :=
 Definition lhstep (h : lhst) (e : list N) : option (lhst * list N) :=
   let s := lms h in
   match decode e with
-  | Some o =>
+  | Some (HOp o) =>
     if lfree h then None
     else let (s', r) := call_now s o in Some ({| lms := s'; lfree := false |}, enc_ret r)
-  | None =>
-    match e with
-    | [8] =>
-      if lfree h then None
-      else let (s', l) := ldrain (S (length (lheap s))) s in Some ({| lms := s'; lfree := false |}, 1 :: l)
-    | 9 :: vs =>
-      if lfree h
-      then let s1 := fold_left (fun s v => fst (call_now s (DPush v))) vs s in
-           let (s2, l) := ldrain (S (length (lheap s1))) s1 in
-           Some ({| lms := s2; lfree := true |}, isort l)
-      else None
-    | _ => None
-    end
-  end%N.
+  | Some HDrain =>
+    if lfree h then None
+    else let (s', l) := ldrain (S (length (lheap s))) s in Some ({| lms := s'; lfree := false |}, 1%N :: l)
+  (* the free stream is replayed in ONE schedule of the model (all pushes, then the drain) and compared
+     order-free *)
+  | Some (HFreeVal v) =>
+    if lfree h then Some ({| lms := fst (call_now s (DPush v)); lfree := true |}, []) else None
+  | Some HFreeRun =>
+    if lfree h
+    then let (s', l) := ldrain (S (length (lheap s))) s in Some ({| lms := s'; lfree := true |}, isort l)
+    else None
+  | None => None
+  end.
 
 (* ---------------- monitors (on the implementation's observations only) ---------------- *)
 (* the sequential deque the history must be equivalent to, and the bag of elements that are inside *)
@@ -78,7 +84,7 @@ Definition bag_remove (x : N) (b : list N) : list N := match remove1 x b with So
 
 Definition dmon (m : dmst) (e o : list N) : dmst * list (nat * nat) :=
   match decode e with
-  | Some op =>
+  | Some (HOp op) =>
     let (l', r) := dseq (d_list m) op in
     let ok1 := list_eqb o (enc_ret r) in
     (* conservation, judged from the observed results alone *)
@@ -93,19 +99,18 @@ Definition dmon (m : dmst) (e o : list N) : dmst * list (nat * nat) :=
                | _, _ => true
                end in
     ({| d_list := l'; d_bag := bag' |}, (if ok1 then [] else [(12, 1)]) ++ (if ok4 then [] else [(12, 4)]))
-  | None =>
-    match e with
-    | [8%N] =>
-      let z := match o with 1%N :: _ => true | _ => false end in
-      let ds := tl o in
-      ({| d_list := []; d_bag := [] |},
-       (if z && list_eqb ds (d_list m) then [] else [(12, 1)]) ++
-       (if z && negb (msub (d_bag m) ds) then [(12, 3)] else []) ++
-       (if msub ds (d_bag m) then [] else [(12, 4)]))
-    | 9%N :: vs =>
-      (m, (if msub (d_bag m ++ vs) o then [] else [(12, 3)]) ++ (if msub o (d_bag m ++ vs) then [] else [(12, 4)]))
-    | _ => (m, [])
-    end
+  | Some HDrain =>
+    let z := match o with 1%N :: _ => true | _ => false end in
+    let ds := tl o in
+    ({| d_list := []; d_bag := [] |},
+     (if z && list_eqb ds (d_list m) then [] else [(12, 1)]) ++
+     (if z && negb (msub (d_bag m) ds) then [(12, 3)] else []) ++
+     (if msub ds (d_bag m) then [] else [(12, 4)]))
+  | Some (HFreeVal v) => ({| d_list := d_list m ++ [v]; d_bag := v :: d_bag m |}, [])
+  | Some HFreeRun =>
+    ({| d_list := []; d_bag := [] |},
+     (if msub (d_bag m) o then [] else [(12, 3)]) ++ (if msub o (d_bag m) then [] else [(12, 4)]))
+  | None => (m, [])
   end.
 
 Definition run_check_linkedlist (cfg : list N) (evs obss : list (list N)) : list issue :=
